@@ -1,6 +1,8 @@
 """Shared constants for rule modules (resolved def-paths of anchors)."""
 CORE = 'emulator::Core::'
 STEP_ROOTS = [CORE + 'update', CORE + 'run_code_block', CORE + 'run_interp', CORE + 'run_frame']
+# the public step functions (update dispatches to one of the other two, which tests also call directly)
+STEP3 = [CORE + 'update', CORE + 'run_code_block', CORE + 'run_interp']
 BUS = ['mem::memory_read_byte', 'mem::memory_write_byte', 'mem::memory_read_word', 'mem::memory_write_word']
 SET_CONTROL = 'devices::serial::SerialComms::set_control'
 SET_DATA = 'devices::serial::SerialComms::set_data'
@@ -34,3 +36,49 @@ def loc(prog, fname, line=None):
     if not f:
         return (None, None)
     return (f['file'], line if line is not None else f['line'])
+
+
+def private_family(prog, root, prefix=None):
+    """`root` plus the helpers it is split into: functions of the same impl (name prefix) that are reachable from the
+    family and are called from nowhere outside it.  Extracting part of a function into a private helper keeps the
+    helper inside the family; a call from anywhere else removes it."""
+    roots = [root] if isinstance(root, str) else list(root)
+    prefix = prefix if prefix is not None else roots[0].rsplit('::', 1)[0] + '::'
+    fam = set(r for r in roots if r in prog.fns)
+    changed = True
+    while changed:
+        changed = False
+        for f in sorted(fam):
+            if f not in prog.fns:
+                continue
+            for bb, t, names in prog.call_sites(f):
+                for n in names:
+                    if n in fam or n not in prog.fns or not n.startswith(prefix):
+                        continue
+                    cs = set(c[0] for c in prog.callers(n))
+                    if cs and cs <= fam:
+                        fam.add(n)
+                        changed = True
+    return fam
+
+
+def always_calls(prog, fam, target):
+    """members f of `fam` such that every entry-to-return path of f passes through a call of `target` (directly or
+    through another member with the same property): least fixpoint"""
+    good = set()
+    changed = True
+    while changed:
+        changed = False
+        for f in sorted(fam):
+            if f in good or f not in prog.fns:
+                continue
+            fn = prog.fns[f]
+            cut = [bb for bb, t, names in prog.call_sites(f) if target in names or any(n in good for n in names)]
+            if not cut:
+                continue
+            reach = prog.reachable_blocks(f, 0, avoid=set(cut))
+            rets = [i for i, b in enumerate(fn['blocks']) if b['term']['k'] == 'return']
+            if not any(r_ in reach for r_ in rets):
+                good.add(f)
+                changed = True
+    return good
